@@ -262,16 +262,6 @@ def question_meaning(msg):
     return [(q["name"], q["type"], q["class"]) for q in msg["qd"]]
 
 
-def stray_pointer_bytes(rr):
-    """offsets in the RDATA of octets >= 0xc0 that are *not* a compression pointer of a name field
-    (neither its first nor its second octet)"""
-    skip = set()
-    for p in rr["ptrs"]:
-        skip.add(p)
-        skip.add(p + 1)
-    return [i for i, c in enumerate(rr["rdata"]) if c >= 0xC0 and i not in skip]
-
-
 def pointer_octets(buf, rr):
     """'none' | 'in-range' | 'out-of-range': does the RDATA hold an octet >= 0xc0 (anywhere, a genuine
     compression pointer included) which, read together with the octet after it, addresses an offset
